@@ -53,8 +53,9 @@ def Expr.eval (env : Env) : Expr → Option Val
   | .or a b => do let x ← a.eval env; let y ← b.eval env; pure (.bool (x.toBool || y.toBool))
   | .not a => do let x ← a.eval env; pure (.bool (!x.toBool))
   | .ite c a b => do
-      let x ← c.eval env; let y ← a.eval env; let z ← b.eval env
-      pure (if x.toBool then y else z)
+      -- `jnp.where(c, a, b)`: an inf / nan (here: undefined) value of the branch that is not selected is dropped
+      let x ← c.eval env
+      if x.toBool then a.eval env else b.eval env
 
 inductive Grid where
   | lin (start stop : Rat) (n : Nat)
